@@ -634,6 +634,19 @@ func (r *c12sRun) check(op c12sOp, blockedBefore int) error {
 			}
 		}
 		if hit == nil {
+			// a held-back timer whose key was set again meanwhile: the statement ("carrying the most recently
+			// set value") does not settle which of the two values its late callback carries
+			if p := r.pend[s.f.key]; p != nil && p.val == s.f.val {
+				for _, e := range r.owed {
+					if e.optional && !e.delivered && e.f.key == s.f.key {
+						hit = e
+						r.cls["held-back-timer-fired-with-newer-value"]++
+						break
+					}
+				}
+			}
+		}
+		if hit == nil {
 			return r.violation("after %s: the execute callback was started for %s at tick %d, but the statement has no such timer due "+
 				"at or before that tick that has not fired yet (a duplicate, a wrong value, a removed or superseded timer, or a fire before the due tick)",
 				op, s.f, s.tick)
@@ -836,7 +849,7 @@ func TestVerifC12WheelSlowCallbacks(t *testing.T) {
 		newVal := func(t *rapid.T) (int, bool) {
 			val++
 			v := val
-			if rapid.IntRange(0, 9).Draw(t, "callbackPanics") == 0 {
+			if rapid.IntRange(0, 9).Draw(t, "callbackPanics") == 9 {
 				v += c12PanicVal
 				r.cls["timers-whose-callback-panics"]++
 			}
